@@ -19,14 +19,15 @@ type mcase struct {
 }
 
 type emitter struct {
-	strings, regexps, ints, lexes, types, parses, values, creates, objects, objectsR []mcase
+	strings, regexps, ints, lexes, types, parses, texts, values, creates, objects, objectsR []mcase
 	pfloats                                                       map[string]bool
 	letters                                                       map[rune]bool
+	tletters                                                      map[rune]bool
 	failed                                                        bool // set by evaluate for the current input
 }
 
 func newEmitter(cfg *lib.Config) *emitter {
-	return &emitter{letters: map[rune]bool{}, pfloats: map[string]bool{}}
+	return &emitter{letters: map[rune]bool{}, tletters: map[rune]bool{}, pfloats: map[string]bool{}}
 }
 
 func gOptStr(present bool, s string) string { return lib.GOpt(present, lib.GStr(s), "str") }
@@ -114,8 +115,32 @@ func (e *emitter) addLex(in input, text string, o Obs) {
 	e.lexes = append(e.lexes, mcase{fmt.Sprintf("(%s, %s%%N, %s, %s)", lib.GStr(text), kind, lib.GStr(tok), iv), in, in.Family == "random", e.failed})
 }
 
+// addText: (text, whether the value printer wrote it, Some tokens | None = the lexer failed) for coq/Model/LiteralText.v
+func (e *emitter) addText(in input, o Obs) {
+	ht, ok := o.Aux["ptext"]
+	if !ok {
+		return
+	}
+	text := unhex(ht)
+	obs := "(@None (list tok))"
+	if o.Aux["plexfail"] != "1" {
+		ts, ok := o.Aux["ptoks"]
+		if !ok {
+			return // the alias form: the tokens were not recorded
+		}
+		obs = "(Some " + ts + ")"
+	}
+	for _, r := range text {
+		if r >= 0x80 && unicode.IsLetter(r) {
+			e.tletters[r] = true
+		}
+	}
+	e.texts = append(e.texts, mcase{fmt.Sprintf("(%s, %s, %s)", lib.GStr(text), lib.GBool(o.Aux["pprinted"] == "1"), obs), in, in.Family == "random", e.failed})
+}
+
 // addParse: (tokens, Some value | None) for coq/Model/TokenParse.v
 func (e *emitter) addParse(in input, o Obs) {
+	e.addText(in, o)
 	ts, ok := o.Aux["ptoks"]
 	if !ok || o.Aux["pdump"] == "-" {
 		return
@@ -212,6 +237,16 @@ func (e *emitter) flush(cfg *lib.Config, res *lib.Result) {
 		imports = []string{"Model.Base", "Model.QuoteLex", "Model.TokenParse", "Corr.CorrC05"}
 		write("parse", "list tok * option pval", "parser_tokens", "parse_mismatches pfloats cases", e.parses,
 			"Definition pfloats : list (str * str) := "+lib.GList(fs, "str * str")+".\n")
+	}
+	if len(e.texts) > 0 || cfg.Replay == "" {
+		var ls []string
+		for r := range e.tletters {
+			ls = append(ls, lib.GN(uint64(r)))
+		}
+		sort.Strings(ls)
+		imports = []string{"Model.Base", "Model.QuoteLex", "Model.TokenParse", "Model.LiteralText", "Corr.CorrC05"}
+		write("text", "str * bool * option (list tok)", "lexer_text_print_lit", "text_mismatches tletters cases", e.texts,
+			"Definition tletters : list N := "+lib.GList(ls, "N")+".\n")
 	}
 	if len(e.values) > 0 || cfg.Replay == "" {
 		imports = []string{"Model.Base", "Model.QuoteLex", "Model.TokenParse", "Model.ValuePrint", "Corr.CorrC05"}
